@@ -113,6 +113,8 @@ class _CoDesc:
           yield from Z.co(prims.time.sleep, 10)
     finally:
       LOG.append(('body-end', name))
+    if name == 'r1' and LOG.count(('body-start', 'r1')) < 3:   # P3: the phase asks twice to be repeated
+      return PD.PhaseResult.REPEAT
     return None
   Z.mark(_run)
 
@@ -155,7 +157,7 @@ def FUNCTIONS():
       [getattr(PE.PhaseExecutorThread, n) for n in ('join_or_die', '_thread_proc', '_thread_exception')] + list(_O1) + list(_O2)
 
 
-BOUNDS = {'programs': 'P0: one main phase; P1: PhaseGroup(setup [s], main [m1, m2], teardown [t1, t2]) followed by phase `after`; P2: PhaseGroup(main [m1], teardown [t1, PhaseGroup(setup [t2], main [t3], teardown [t4])])',
+BOUNDS = {'programs': 'P0: one main phase; P1: PhaseGroup(setup [s], main [m1, m2], teardown [t1, t2]) followed by phase `after`; P2: PhaseGroup(main [m1], teardown [t1, PhaseGroup(setup [t2], main [t3], teardown [t4])]); P3 (thorough tier): a phase that returns REPEAT twice (three invocations), then phase m1',
           'aborts': 'the first abort starts at a symbolic global step 0..335 (runs are <= ~310 steps: every statement of the run is a candidate, plus abort after the run finished); optional second abort 0..60 (quick) / 0..90 (thorough) steps later',
           'schedule': 'one additional preemption within 25 steps after the abort start (executor <-> aborter); otherwise a thread runs until it blocks',
           'bodies': 'main phase m1 and teardown phase t1 (t2 too under two aborts): prompt, long-running but killable, or ignoring the first kill (abandoned after cancel_timeout_s); quick tier: (prompt, prompt) and (killable, killable) for one abort, (killable, prompt) and (killable, killable) for two; thorough: all nine / five combinations'}
@@ -164,8 +166,8 @@ STUBS = ['cooperative primitives + virtual time (vlib/seqz)', 'async_raise deliv
          'logging disabled; FakeClock for record timestamps']
 ASSUMPTIONS = ['preemption only between statements of the encoded functions; non-encoded callees (TestState.*, running_phase_context, PhaseState.finalize) are atomic',
                'ABORTED is demanded only when the abort flag was set before the executor entered its final teardown (an abort that arrives later finds a finished test)']
-OUTSIDE = ['the SIGINT handler nested on the thread that executes Test.execute (D6 observation) and Test.abort_from_sig_int locking', 'more than two aborts',
-           'real-thread replay of counterexamples (replay is in the sequentialised model)', 'repeat/subtest programs', 'plug tearDown under abort (C08 covers faults, not schedules)']
+OUTSIDE = ['repeat programs in the quick tier (P3 is thorough-only); subtest programs', 'the SIGINT handler nested on the thread that executes Test.execute (D6 observation) and Test.abort_from_sig_int locking', 'more than two aborts',
+           'real-thread replay of counterexamples (replay is in the sequentialised model)', 'plug tearDown under abort (C08 covers faults, not schedules)']
 
 
 def _phase(name, **opts):
@@ -181,6 +183,8 @@ PROG = {
     1: [PG.PhaseGroup(setup=[_phase('s')], main=[_phase('m1'), _phase('m2')], teardown=[_phase('t1'), _phase('t2')]), _phase('after')],
     # a group that is itself a teardown node of an entered group (a reusable "power down" group)
     2: [PG.PhaseGroup(main=[_phase('m1')], teardown=[_phase('t1'), PG.PhaseGroup(setup=[_phase('t2')], main=[_phase('t3')], teardown=[_phase('t4')])])],
+    # a phase that is re-invoked (REPEAT, limit 3), then an ordinary one: "invoked or re-invoked" after the abort returned
+    3: [_phase('r1', repeat_limit=5), _phase('m1')],
 }
 TESTS = {k: htf.Test(*v) for k, v in PROG.items()}
 TEARDOWN_PHASES = ('t1', 't2', 't3', 't4')
@@ -347,7 +351,11 @@ def _monitor(ex, s, dead, prog, second_delay, durs):
       # classified: the abort ran to completion before this phase's thread was registered and the
       # executor had already passed its abort check (finding D13, reproduced on real threads by
       # findings/D13_abort_lost_before_phase_start.py)
-      first_after = (i == min(j for j, x in enumerate(LOG) if x[0] == 'body-start' and j > idx_abort_ret))
+      i_first = min(j for j, x in enumerate(LOG) if x[0] == 'body-start' and j > idx_abort_ret)
+      # the first phase started after the abort returned, and its own re-invocations (REPEAT): the repeat loop of
+      # PhaseExecutor.execute_phase only consults the withdrawn stop flag, so the lost abort stays lost for the whole call
+      first_after = (i == i_first) or (e[1] == LOG[i_first][1] and d13 is not None and
+                                       not any(x[0] == 'body-start' and x[1] != e[1] for x in LOG[i_first:i]))
       # D13's mechanism: the abort's stop request was already withdrawn (reset_stop) when the executor
       # checked it and started this phase's thread.  A thread started *before* that is not excused.
       i_start = max([j for j, x in enumerate(LOG[:i]) if x == ('thread-start', e[1])] or [-1])
@@ -422,17 +430,17 @@ def _single(prog, pa, dm, dt, p1, t1):
 
 
 @cond(timeout=1500, split={'prog': range(3), 'di': _DQ, 'pb': range(6)},
-      split_thorough={'prog': range(3), 'di': range(len(_DT)), 'pb': range(6)}, timeout_thorough=3000)
+      split_thorough={'prog': range(4), 'di': range(len(_DT)), 'pb': range(6)}, timeout_thorough=3000)
 def c_single_abort(prog: int, pb: int, pa: int, di: int, k1: int, t1: int) -> bool:
   """
-  pre: 0 <= prog <= 2 and 0 <= pb <= 5 and 0 <= di <= 8
+  pre: 0 <= prog <= 3 and 0 <= pb <= 5 and 0 <= di <= 8
   pre: 0 <= pa < _PA_BLOCK
   pre: 0 <= k1 <= 25 and 0 <= t1 <= 1
   post: _
   """
   # the abort starts at global step pb*56+pa (every statement of the run is a candidate); one more
   # preemption k1 steps later (k1 = 0: none) switches between executor (0) and aborter (1)
-  prog, pb, pa, di, k1, t1 = pin(prog, 0, 2), pin(pb, 0, 5), pin(pa, 0, _PA_BLOCK - 1), pin(di, 0, 8), pin(k1, 0, 25), pin(t1, 0, 1)
+  prog, pb, pa, di, k1, t1 = pin(prog, 0, 3), pin(pb, 0, 5), pin(pa, 0, _PA_BLOCK - 1), pin(di, 0, 8), pin(k1, 0, 25), pin(t1, 0, 1)
   dm, dt = _DT[di]
   pa = pb * _PA_BLOCK + pa
   return untraced(_single, prog, pa, dm, dt, pa + k1, t1)
